@@ -221,6 +221,10 @@ class Ctx:
         e["VERIF_TIER"] = self.tier
         e["VERIF_SCRATCH_DIR"] = self.scratch
         e["VERIF_REPO"] = self.repo
+        # temporary files of the code under test (unix sockets of util.NewUnixAddr ...) stay in the scratch directory
+        tmpd = self.path("tmp")
+        os.makedirs(tmpd, exist_ok=True)
+        e["TMPDIR"] = tmpd
         e.update(GOENV)
         if env:
             e.update(env)
